@@ -30,7 +30,7 @@ def run(module_path, cfg_path, workers=1, timeout=1800, env=None, simulate=None,
     libs = os.pathsep.join([SPEC] + list(extra_libs))
     # light: many short single-worker runs side by side -- one GC thread, C1 only (halves CPU per run)
     gc = ['-XX:+UseSerialGC', '-XX:TieredStopAtLevel=1'] if light else ['-XX:+UseParallelGC']
-    cmd = ['java'] + gc + ['-Xmx' + heap, '-DTLA-Library=' + libs]
+    cmd = ['java'] + gc + ['-Xmx' + heap, '-Xss256m', '-DTLA-Library=' + libs]
     if dfs:
         cmd.append('-Dtlc2.tool.queue.IStateQueue=StateDeque')
     cmd += ['-cp', JAR, 'tlc2.TLC', '-workers', str(workers), '-metadir', meta, '-noGenerateSpecTE',
